@@ -54,6 +54,7 @@ class Check:
         self._nontrivial: set = set()
         self._vfp: set = set()
         self._known = load_known()
+        self.all_fingerprints: list = []
         os.makedirs(os.path.join(REPLAYS, prop), exist_ok=True)
         os.makedirs(EVIDENCE, exist_ok=True)
 
@@ -89,10 +90,11 @@ class Check:
         if fingerprint in self._vfp:
             return
         self._vfp.add(fingerprint)
+        self.all_fingerprints.append(fingerprint)
         h = hashlib.sha1(fingerprint.encode()).hexdigest()[:12]
         path = os.path.join(REPLAYS, self.prop, f"{h}.json")
         replay = dict(replay)
-        replay.update({"property": self.prop, "fingerprint": fingerprint, "summary": summary})
+        replay.update({"property": self.prop, "fingerprint": fingerprint, "summary": summary, "seed": self.seed, "tier": self.tier})
         if len(self.violations) < 300:  # every violation is counted; only the first 300 get a replay file
             with open(path, "w") as f:
                 json.dump(replay, f, indent=1, sort_keys=True, default=str)
